@@ -258,7 +258,7 @@ def is_named(t: Type) -> bool:
     return isinstance(t, (Named, Basic))
 
 
-def identical(a: Type, b: Type) -> bool:
+def identical(a: Type, b: Type, ignore_tags: bool = False) -> bool:
     if a is b:
         return True
     if a.__class__ is Basic:
@@ -272,15 +272,16 @@ def identical(a: Type, b: Type) -> bool:
         return False
     if ta is Basic or ta is Named:
         return False  # singletons / unique
+    it = ignore_tags
     if ta is Pointer or ta is Slice:
-        return identical(a.elem, b.elem)
+        return identical(a.elem, b.elem, it)
     if ta is Array:
-        return a.len == b.len and identical(a.elem, b.elem)
+        return a.len == b.len and identical(a.elem, b.elem, it)
     if ta is Struct:
         if len(a.fields) != len(b.fields):
             return False
         for fa, fb in zip(a.fields, b.fields):
-            if fa.name != fb.name or fa.tag != fb.tag or not identical(fa.type, fb.type):
+            if fa.name != fb.name or (not it and fa.tag != fb.tag) or not identical(fa.type, fb.type, it):
                 return False
             if not is_exported(fa.name) and fa.pkg != fb.pkg:
                 return False
@@ -288,15 +289,15 @@ def identical(a: Type, b: Type) -> bool:
     if ta is Signature:
         if len(a.params) != len(b.params) or len(a.results) != len(b.results) or a.variadic != b.variadic:
             return False
-        return all(identical(x, y) for x, y in zip(a.params, b.params)) and all(
-            identical(x, y) for x, y in zip(a.results, b.results)
+        return all(identical(x, y, it) for x, y in zip(a.params, b.params)) and all(
+            identical(x, y, it) for x, y in zip(a.results, b.results)
         )
     if ta is Interface:
         if a.methods.keys() != b.methods.keys():
             return False
-        return all(identical(a.methods[k], b.methods[k]) for k in a.methods)
+        return all(identical(a.methods[k], b.methods[k], it) for k in a.methods)
     if ta is Tuple_:
-        return len(a.types) == len(b.types) and all(identical(x, y) for x, y in zip(a.types, b.types))
+        return len(a.types) == len(b.types) and all(identical(x, y, it) for x, y in zip(a.types, b.types))
     return False
 
 
